@@ -398,8 +398,17 @@ Fixpoint all_some {A} (l : list (option A)) : option (list A) :=
   | None :: _ => None
   end.
 
-Definition spec_meta (E : env) (st : store) : option meta :=
+(* the metadata of the version the resolution SERVES: the file the pointer names when it is there, otherwise
+   whatever the recovery scan settles on.  This is the code's choice, not the table's truth: when the pointer names
+   a file that is gone, the version served is an OLDER one (possibly v0, the empty table of create_table). *)
+Definition served_meta (E : env) (st : store) : option meta :=
   obind (resolved E st) (fun mk => obind (cur_bytes st mk) (parse_meta E)).
+
+(* the metadata of the CURRENT version: the file the pointer names (the commit point writes the pointer last, so on
+   a table whose pointer is intact that file is the last committed version).  No recovery on the specification side:
+   a pointer that names nothing readable leaves "the current snapshot" undefined here. *)
+Definition spec_meta (E : env) (st : store) : option meta :=
+  obind (hinted E st) (fun mk => obind (cur_bytes st mk) (parse_meta E)).
 
 Definition spec_manifest (E : env) (st : store) (mref : option key) : option (list dfile) :=
   match mref with
@@ -438,7 +447,7 @@ Inductive role := RMeta | RList | RManifest | RData.
 Inductive reach (E : env) (st : store) : role -> key -> Prop :=
 | reach_hinted : forall mk, hinted E st = Some mk -> reach E st RMeta mk
 | reach_resolved : forall mk, resolved E st = Some mk -> reach E st RMeta mk
-| reach_list : forall md s, spec_meta E st = Some md -> find_snap md = Some s -> reach E st RList (slist s)
+| reach_list : forall md s, served_meta E st = Some md -> find_snap md = Some s -> reach E st RList (slist s)
 | reach_manifest : forall l b ms m, reach E st RList l -> cur_bytes st l = Some b ->
     list_content E b = Some ms -> In (Some m) ms -> reach E st RManifest m
 | reach_data : forall m b dfs df, reach E st RManifest m -> cur_bytes st m = Some b ->
@@ -497,7 +506,7 @@ Definition touched (E : env) (st : store) (a : api) (o : opts) (r : role) (k : k
   match r with
   | RData => reads_data a = true /\
              match st k with
-             | Flaky s _ => forall md sn dfs df, spec_meta E st = Some md -> find_snap md = Some sn ->
+             | Flaky s _ => forall md sn dfs df, served_meta E st = Some md -> find_snap md = Some sn ->
                               spec_dfiles E st sn = Some dfs -> selected dfs k = Some df ->
                               s = data_site (verify o) df
              | _ => True
@@ -507,6 +516,24 @@ Definition touched (E : env) (st : store) (a : api) (o : opts) (r : role) (k : k
          | _ => True
          end
   end.
+
+(* ---------------------------------------------------------------- a broken table
+   What "a broken table" of the property text covers on the metadata plane: the pointer names a metadata file that
+   is gone; or the current metadata names a snapshot that is not there (dangling id), a manifest list that is gone,
+   a manifest that is gone. *)
+Definition broken_snapshot (E : env) (st : store) (md : meta) : Prop :=
+  (find_snap md = None /\ exists id, mcur md = Some id /\ id <> -1)
+  \/ (exists s, find_snap md = Some s /\ st (slist s) = Absent)
+  \/ (exists s b ms m, find_snap md = Some s /\ cur_bytes st (slist s) = Some b /\ list_content E b = Some ms
+                        /\ In (Some m) ms /\ st m = Absent).
+
+Definition broken_table (E : env) (st : store) : Prop :=
+  (exists mk, hinted E st = Some mk /\ st mk = Absent)
+  \/ (exists md, spec_meta E st = Some md /\ broken_snapshot E st md).
+
+(* the options of a call that passes none: verify_checksums=None resolves to GenRead.verify_default_on
+   (Table._resolve_verify_checksums with the environment variable unset), regenerated from the source *)
+Definition default_opts : opts := {| verify := verify_default_on |}.
 
 (* ---------------------------------------------------------------- the write side the checksum travels through
    "SHA-256 of each data file recorded at write, verified on read": between the write and the read lie the
